@@ -3,6 +3,7 @@
 use std::{
     cell::UnsafeCell,
     ops::{Index, IndexMut},
+    sync::atomic::{AtomicUsize, Ordering},
 };
 
 use crate::{to_right, Prefix};
@@ -34,7 +35,11 @@ impl<P, T> Node<P, T> {
 /// the inner data. If, however, you own an immutable reference, then you must guarantee that there
 /// is no other reference to the Table that potentially accesses the same node mutably. This interior
 /// mutability is only ever provided in `get_mut`.
-pub(crate) struct Table<P, T>(UnsafeCell<Vec<Node<P, T>>>);
+///
+/// The second field caches the number of nodes that currently hold a value. It lives next to the
+/// nodes (and is atomic), because values can be inserted and removed through a `TrieViewMut`,
+/// which only holds a shared reference to the table, potentially from multiple threads.
+pub(crate) struct Table<P, T>(UnsafeCell<Vec<Node<P, T>>>, AtomicUsize);
 
 // Safety:
 // - Sending a PrefixMap over thread boundary is fine. No-one besides us can have the raw pointer,
@@ -82,7 +87,10 @@ impl<P, T> IndexMut<usize> for Table<P, T> {
 
 impl<P: Clone, T: Clone> Clone for Table<P, T> {
     fn clone(&self) -> Self {
-        Self(UnsafeCell::new(self.as_ref().clone()))
+        Self(
+            UnsafeCell::new(self.as_ref().clone()),
+            AtomicUsize::new(self.count()),
+        )
     }
 }
 
@@ -91,12 +99,15 @@ where
     P: Prefix,
 {
     fn default() -> Self {
-        Self(UnsafeCell::new(vec![Node {
-            prefix: P::zero(),
-            value: None,
-            left: None,
-            right: None,
-        }]))
+        Self(
+            UnsafeCell::new(vec![Node {
+                prefix: P::zero(),
+                value: None,
+                left: None,
+                right: None,
+            }]),
+            AtomicUsize::new(0),
+        )
     }
 }
 
@@ -133,6 +144,37 @@ pub(crate) enum DirectionForInsert<P> {
 impl<P, T> Table<P, T> {
     pub(crate) fn into_inner(self) -> Vec<Node<P, T>> {
         self.0.into_inner()
+    }
+
+    /// The number of nodes that currently hold a value.
+    #[inline(always)]
+    pub(crate) fn count(&self) -> usize {
+        self.1.load(Ordering::Relaxed)
+    }
+
+    /// Must be called whenever a value is put into a node that had none.
+    #[inline(always)]
+    pub(crate) fn inc_count(&self) {
+        self.1.fetch_add(1, Ordering::Relaxed);
+    }
+
+    /// Must be called whenever a value is taken out of a node.
+    #[inline(always)]
+    pub(crate) fn dec_count(&self) {
+        self.1.fetch_sub(1, Ordering::Relaxed);
+    }
+
+    /// Must be called when all nodes are removed.
+    #[inline(always)]
+    pub(crate) fn reset_count(&self) {
+        self.1.store(0, Ordering::Relaxed);
+    }
+
+    /// Get a mutable reference to a node together with the counter of nodes that hold a value.
+    pub(crate) fn node_and_count_mut(&mut self, idx: usize) -> (&mut Node<P, T>, &AtomicUsize) {
+        #[cfg(feature = "verif-hooks")]
+        crate::verif_hooks::tick();
+        (&mut self.0.get_mut()[idx], &self.1)
     }
 
     /// *Safety*: You must ensure for the lifetime of 'a, that you will never construct a second
